@@ -136,6 +136,14 @@ CLAIMED = {
         "os.time() granularity 1 s (limit 1 s => abort within 1-2 s); hard kill at limit + 6 s; four listed findings (pcall, coroutine, hook control, nested invoke); proposed fix kept in proposed_fixes/ (judged too large to apply blindly without the Lua test-suite).",
         "DESIGN.md §5 C07, notes/C07.md",
     ),
+    "C18": (
+        ["Expr", "MC_Expr", "Gen_Expr", "Trace_Expr", "StrFns", "FormatNum", "ParserFns"],
+        "TLA+ models of #expr (exact rational Fold over ASTs, documented-precedence renderers, transcription of the generic_binary ladder and tokenizer), of the string functions over Seq(Atom), and of formatnum grouping / reverse; "
+        "TLC checks Ladder(RenderMin(a)) = Ladder(RenderFull(a)) = Fold(a) on operator pairs/shapes, string-function laws and Reverse(Format(n)) = n; every enumerated case evaluated by the real expand() in five renderings; random deeper ASTs / calls / numerals recorded and validated by TLC trace specs",
+        "Bounded-exhaustive operator pairs x association shapes x operand triples, token soups, strings x offsets, numerals x every locale shape read from the working tree; V: ASTs to depth 5, wider alphabets.",
+        "exact rationals only (transcendental functions, float formatting and full-Unicode percent-encoding are not decided: stated limitation); documentation encoded from memory (no network); three #titleparts deviations are listed findings (pinned by existing tests).",
+        "DESIGN.md §5 C18, notes/C18.md",
+    ),
 }
 NOT_YET = "check not built yet in this round (see DESIGN.md §10 build order); nothing is claimed for it"
 
